@@ -11,6 +11,10 @@ CLAIMS = {
   text="Theorems over the wrapper model for an arbitrary inner codec: stored form never longer than the input, tagged output is strictly shorter (so the reader's 'same length means raw' rule is sound), wrapper round trip relative to the codec contract, acceptance region of the default limit logic for all sizes up to 2^21, and the sparse decoder inverts every well-formed token stream (unbounded). Tied to the code by regenerated limit constants, byte-exact correspondence of the sparse codec, the wrapper and the limit decisions (boundary triples), and the compress->decompress oracle on the real codecs over nine compressibility classes.",
   note="partial: the half 'sparse_compress emits a well-formed token stream of its input' is validated (exhaustive zero-run sweep 0..800, boundary run lengths, random) but not proved; zlib/bzip2/LZMA/PKWare/Huffman/ADPCM internals are external crates (codec contract is a Section hypothesis, exercised by the oracle); wall-clock limits not modelled. Known finding: bzip2 of 2 MiB constant data exceeds the adaptive limit.",
   tech="Coq proof (wrapper/limit algebra by lia, sparse decoder by induction over tokens) + differential correspondence + implementation oracle"),
+ "C11": dict(
+  text="Coq model of the target computation (Unix std::path components/join/file_name as used by the CLI) with the theorem that for EVERY entry name, with or without path preservation, the target lies strictly beneath the output directory and consists only of plain component names; refutation witnesses for the code as found. Tied to the code by running the real binary built from the working tree on grammar-generated archives (plain and patch-chain branch, explicit and whole-archive) inside a sandbox whose whole tree (and an absolute escape directory) is snapshotted before and after; the set of created files must equal the model's predicted targets.",
+  note="Lexical containment only: pre-existing symlinks in the output tree are outside the property's quantifier and the model. std::path semantics are transcribed by hand for Unix; Windows prefixes are not modelled. The model is of the repaired extraction_target function (fix: commit in /repo).",
+  tech="Coq proof (induction over path components) + process-level differential check with file-system snapshots"),
  "C18": dict(
   text="tile<->world: Flocq binary32 model of both functions, theorem for all 64x64 tiles by a kernel-evaluated finite sweep, tied to the code by regenerated float constants and bit-exact exhaustive comparison on all 4096 tiles plus seeded float patterns. WDT: complete byte-level Coq model of writer and reader with the theorem read(write w) = Ok w for every well-formed map definition and byte-identical second write (generic theorems: chunk framing tiles the file, record codec and name-table round trips), tied by byte-exact writer and reader correspondence incl. mutated files. WDL: offset-table discipline checked on the real bytes with the extracted, proven chunk walk; content round trip and version conversion checked on the implementation.",
   note="Flocq brings the four classical real-number axioms (listed in the evidence) for the coordinate theorem only. WDL content codec and the version-conversion functions are validated on the implementation, not modelled. UTF-8 validity of names is outside the model. Objects the writer silently trims (MWMO on Cataclysm+ terrain maps, MVER != 18) are outside the well-formedness predicate.",
